@@ -31,9 +31,17 @@ METHOD_POOL = [
     ["Base: s", "OvC", "OvA", "Wait: 0.2s", "OvB", "OvC", "Mark: Z", ""],
     ["Base: s", "Simulate: In = 5 L/h", "Mark: S", "Wait: 0.3s", "Simulate off: In", "Mark: T", ""],
     ["Base: min", "0.01 Mark: late", "Set2: 3 L/h", ""],
+    # internal commands with arguments they do not take, or malformed ones: the instruction fails, the engine stays responsive
+    ["Base: s", "Mark: A", "Stop: now", "Mark: B", ""],
+    ["Base: s", "Set1: 3", "Pause: 1x", "Mark: A", "Wait: 0.5s", ""],
+    ["Base: s", "Mark: A", "Restart: 1", "Mark: B", ""],
+    # a simulated value that equals the real one
+    ["Base: s", "Simulate: Level = 0 L", "Mark: S", "Wait: 0.5s", "Mark: T", ""],
 ]
 
 SWEEP_METHODS = [
+    ["Base: s", "Set1: 3", "Stop: now", "Mark: B", "Wait: 0.5s", ""],
+    ["Base: s", "Simulate: Level = 0 L", "Long", "Wait: 1s", "Mark: T", ""],
     ["Base: s", "Set1: 2", "Pause: 1s", "Mark: B", "Wait: 0.5s", "Mark: C", ""],
     ["Base: s", "Set1: 3", "Mark: A", "Nonsense: 1", "Mark: B", ""],
     ["Base: s", "Set1: 4", "Long", "Hold: 0.5s", "Loop1", "Wait: 0.5s", ""],
@@ -66,7 +74,7 @@ VOLUME_METHODS = [
 
 CONTROLS = ["Start", "Stop", "Pause", "Unpause", "Hold", "Unhold", "Restart"]
 SNIPPETS = ["Mark: inj", "Set1: 1", "Set1: 2", "Short", "Long", "Wait: 0.2s", "Block: IB\n    Mark: ib\n    End block", "Fail",
-            "Pause: 0.2s", "Hold: 0.2s"]
+            "Pause: 0.2s", "Hold: 0.2s", "Stop: 2 min", "Hold: 1x"]
 
 
 def _with_reports(run_id, steps):
@@ -293,7 +301,7 @@ def project_runstate(run):
     """events for RunStateTrace.tla"""
     out = []
     failed, w1, writer, scope, mrestart, pstate = [], [], False, False, False, "Stopped"
-    edited, failed_any = False, False
+    edited, failed_any, stoplike = False, False, 0
     for e in run["events"]:
         k = e["e"]
         if k == "tickBegin":
@@ -312,6 +320,8 @@ def project_runstate(run):
                 scope = True
             if e["f"] == "started" and e["new"] == "True" and e["ins"] == "Restart":
                 mrestart = True
+            if e["f"] == "started" and e["new"] == "True" and e["ins"] in ("Stop", "Restart") and e["cls"] == "EngineCommandNode":
+                stoplike = 8                 # a Stop / Restart line is being executed (its command runs in the next ticks)
         elif k == "write":
             if "Out1" in e["vals"]:
                 w1.append(e["vals"]["Out1"])
@@ -324,7 +334,9 @@ def project_runstate(run):
                         "btu": e["btu"], "stu": e["stu"], "block": e["block"], "out1": e["out"]["Out1"], "hw1": e["hw"]["Out1"],
                         "w1": w1, "failedNodes": failed, "mfailed": e["mstate"].get("failed", []), "scopeChange": scope,
                         "writerExec": writer, "methodRestart": mrestart, "pstate": pstate, "edited": edited,
-                        "stopping": bool(e.get("stopping", False)), "failedAny": failed_any})
+                        "stopping": bool(e.get("stopping", False)), "failedAny": failed_any,
+                        "stopLine": stoplike > 0})
+            stoplike = max(0, stoplike - 1)
             if not e["started"]:
                 edited = False
             failed, w1, writer, scope, mrestart, failed_any = [], [], False, False, False, False
